@@ -5,6 +5,7 @@ replays every case on the model and on the history spec, and judges
   * observed satisfies the spec (the property itself, evaluated on the implementation's output).
 -/
 import Kap.Spec.C09
+import Kap.Driver.C09Svc
 open Kap Kap.C09
 
 namespace Kap.C09.Drv
@@ -121,4 +122,4 @@ def judge (_id : String) (lines : Array String) : Verdict := Id.run do
 
 end Kap.C09.Drv
 
-def main : IO Unit := Kap.driverMain Kap.C09.Drv.judge
+def main : IO Unit := Kap.driverMain (fun id ls => if id.startsWith "s" then Kap.C09.SvcDrv.judge id ls else Kap.C09.Drv.judge id ls)
